@@ -91,6 +91,19 @@ CHECKS = {
         note='Crash model = prefix of the intended file. Semantically valid but wrong JSON is outside the statement.',
         technique='crash-point enumeration over cache-file prefixes + audit-hook file-system monitor + table oracle at connected',
         engine='detsched+simcf', design='DESIGN.md §3 C11'),
+    'C05': dict(
+        level='exploration',
+        text=('Generated log configurations (0..26 variables over all 8 fetch types, default and explicit types, raw-memory '
+              'variables, payload 0..30 bytes around the 26-byte limit, periods 0..3000 ms) are added, started, stopped, '
+              'deleted and re-added after a reconnect on a real connected Crazyflie. Monitors: acceptance vs. the reference '
+              'rule and zero packets for rejected ones; the create/append packets seen by the device decoded with the '
+              'firmware rule against the variable list; data packets encoded by the device from what it parsed (extreme '
+              'values, every fetch type incl. FP16, 24-bit timestamps) against data_received_cb; added/started flags and '
+              'callbacks against the acknowledgement sequence with injected device errors; SyncLogger iteration in a '
+              'consumer thread ending at disconnect.'),
+        note='One open known finding (raw-memory variables). Histories are the four fixed shapes x generated configurations.',
+        technique='wire-log decoder oracle + callback log checker + flag state machine monitor under a deterministic scheduler',
+        engine='detsched+simcf', design='DESIGN.md §3 C05'),
 }
 
 PENDING_REASON = ('check not built yet in this work session (design in DESIGN.md §3); nothing is claimed for it '
